@@ -162,6 +162,9 @@ func genMediaPlan(focus string) func(tp *simrt.Tape, seed uint64, tier string) a
 		// feedback / control events
 		n := len(p.Arrivals)
 		ne := tp.Draw(4 + n/6)
+		if focus == "C03" {
+			ne = 2 + tp.Draw(4+n/3)
+		}
 		if !p.Faults && tp.Chance(1, 2) {
 			ne = tp.Draw(3)
 		}
@@ -184,7 +187,7 @@ func genMediaPlan(focus string) func(tp *simrt.Tape, seed uint64, tier string) a
 				ev.B = tp.Draw(2000)
 			case 2:
 				ev.Kind = "nack"
-				ev.Mode = tp.Draw(6)
+				ev.Mode = tp.Draw(7)
 				ev.A = tp.Draw(64)
 				ev.B = tp.Draw(1 << 16)
 			case 3:
@@ -324,6 +327,18 @@ func (w *mediaWorld) fire(ev *mediaEvent) {
 				wx := rs.nWith[len(rs.nWith)-1-ev.A%len(rs.nWith)]
 				base := uint16(wx - int64(w.withheldBelow(rs, wx)))
 				seqs = append(seqs, base-1, base, base+1)
+			}
+		case 6: // the packet about to be evicted from the 128-packet cache
+			var best uint16
+			found := false
+			for _, s := range sentNums {
+				if d := w.newest - rs.sent[s].ext; d >= 126 && d <= 128 {
+					best, found = s, true
+				}
+			}
+			if found {
+				seqs = append(seqs, best)
+				c.Count("probe.nack_at_eviction_boundary", 1)
 			}
 		case 5: // a burst
 			if len(sentNums) > 0 {
@@ -535,7 +550,7 @@ func init() {
 			Gen:    genMediaPlan(prop),
 			Cfg: func(tp *simrt.Tape, plan any) simrt.Config {
 				c := swarmCfg(tp, true)
-				c.Races = tp.Chance(1, 3)
+				c.Races = tp.Chance(1, 3) || (prop == "C03" && tp.Chance(1, 2))
 				c.MaxSteps = 3_000_000
 				return c
 			},
